@@ -335,6 +335,20 @@ qlisttbl_t *qconfig_parse_str(qlisttbl_t *tbl, const char *str, char sepchar) {
  *  qLibc, /home/qlibc, Wed Nov 24 00:30:58 UTC 2010
  * @endcode
  */
+// true if str has a "${" that is not closed inside str.
+static bool _has_open_ref(const char *str) {
+    int opened = 0;
+    for (; *str != '\0'; str++) {
+        if (*str == _VAR && *(str + 1) == _VAR_OPEN) {
+            opened++;
+            str++;
+        } else if (*str == _VAR_CLOSE && opened > 0) {
+            opened--;
+        }
+    }
+    return (opened > 0);
+}
+
 static char *_parsestr(qlisttbl_t *tbl, const char *str) {
     if (str == NULL) {
         errno = EINVAL;
@@ -343,8 +357,8 @@ static char *_parsestr(qlisttbl_t *tbl, const char *str) {
 
     bool loop;
     char *value = strdup(str);
-    // references whose expansion brought a new "${" into the string; each of
-    // them is expanded only once per string, see below.
+    // references whose expansion brought the beginning of a reference into
+    // the string; each of them is expanded only once per string, see below.
     char **expanded = NULL;
     int numexpanded = 0;
     do {
@@ -435,13 +449,15 @@ static char *_parsestr(qlisttbl_t *tbl, const char *str) {
 
             // values can also refer to each other through pieces of
             // references ("${b}}" and "${a", or "{a}$" next to "{a}"), which
-            // no single value shows. an expansion that brings a new "${" into
-            // the string - inside the value or where it meets its neighbours -
-            // is made only once per reference, so such a circle is left as it
-            // is instead of being expanded forever. every other expansion
-            // takes a "${" away, so the loop ends.
+            // no single value shows. an expansion that brings the beginning
+            // of a reference into the string - a "${" that is not closed
+            // inside the value, or a '$' or '{' that meets its other half at
+            // the edge of the value - is made only once per reference, so
+            // such a circle is left as it is instead of being expanded
+            // forever. complete references inside a value only name
+            // variables that were defined later than it, so they end.
             size_t newlen = strlen(newstr);
-            bool newref = (strstr(newstr, "${") != NULL
+            bool newref = (_has_open_ref(newstr) == true
                     || (newlen > 0 && newstr[0] == _VAR_OPEN
                         && newstr[newlen - 1] == _VAR));
             char *occ;
